@@ -93,6 +93,8 @@ def check_C05(tier, seed):
     run_workspace(out, "C05", tier)
     from .checks_traces import run_traces
     run_traces(out, "C05", tier)
+    from .checks_system import run_workflow
+    run_workflow(out, "C05", tier)
     out.assumptions += [
         "array sources: every order of the region's dims, every order with one surplus dimension (summed by label), every list "
         "lacking one region dimension (refused); list selections are only combined with number sources (the statement leaves "
